@@ -62,9 +62,36 @@ def run(ctx) -> None:
     a = ctx.a
     an = Anchors(a)
     stack = an.teardown_stack
-    (runner, reg_node, reg_call, reg_kind), regs = runner_of(ctx, an)
-    aenter = an.ctx_method("__aenter__")
     aexit = an.ctx_method("__aexit__")
+    try:
+        (runner, reg_node, reg_call, reg_kind), regs = runner_of(ctx, an)
+    except AnalysisError:
+        # the drain is not registered on the exit stack.  One thing can be decided all the same
+        # when __aexit__ calls it directly: whatever the drain raises (the exception group) must
+        # leave __aexit__ - a handler around the call that does not re-raise swallows it.
+        swallowed = False
+        from ..loader import exc_expr as _exc_expr
+
+        sources = []  # (node the group comes out of, description)
+        for call, c in a.func_calls(aexit):
+            if c.kind == "func" and c.func.cls is an.Context and any(isinstance(x, ast.Attribute) and x.attr == stack for x in walk_own(c.func.node)):
+                sources.append((call, f"{c.func.name}()"))
+        if any(isinstance(x, ast.Attribute) and x.attr == stack for x in walk_own(aexit.node)):
+            # the drain itself has been folded into __aexit__
+            for r_ in walk_own(aexit.node):
+                if isinstance(r_, ast.Raise) and r_.exc is not None and "ExceptionGroup" in ast.unparse(_exc_expr(r_)):
+                    sources.append((r_, "the teardown loop"))
+        for call, what in sources:
+            for h in a.covering_handlers(aexit, call):
+                catches = h.type is None or any(nm in ast.unparse(h.type) for nm in ("BaseException", "Exception", "ExceptionGroup"))
+                reraises = any(isinstance(x, ast.Raise) for x in ast.walk(h))
+                if catches and not reraises:
+                    rep.violate("C01.R5", aexit, h, f"the exception group raised by {what} is caught in __aexit__ (`except {ast.unparse(h.type) if h.type is not None else ''}`) and not re-raised: where nothing else raises it again (any context that is not the root) the callbacks' exceptions are dropped and the caller sees the block's own outcome")
+                    swallowed = True
+        if swallowed:
+            return
+        raise
+    aenter = an.ctx_method("__aenter__")
     register = an.ctx_method("add_teardown_callback")
     cfg = a.cfg(runner)
     rd = ReachingDefs(a, runner)
